@@ -69,7 +69,7 @@ CLAIMS = {
         "O1 per-layer consistency of the real ivp_solver for all real profile values (exact arithmetic, formal layer thicknesses: "
         "order-0, order-1 and the cross term of two layers, stored-level states); O2 prescribed flux at the surface from the whole "
         "solver run exactly on a 4x4 grid; O3 the decaying constant-coefficient continuation at the top node for concrete profile "
-        "families and all sources. A failed obligation is replayed against a DOP853 Riccati reference (error must shrink 2.5x when dz is quartered).",
+        "families and all sources; O4 with a halo (every class) the result equals the halo-0 result on the explicitly padded source for all sources, so the components are those of the padded periodic grid. A failed obligation is replayed against a DOP853 Riccati reference (error must shrink 2.5x when dz is quartered).",
         ref="7/C01", note="Trusted: z3; exact rationals for source literals; csqrt as uninterpreted principal root; stubs as in C02. The theorem "
         "'consistent+stable => convergent' and the constants are outside the claim."),
     "C05": dict(
@@ -97,7 +97,8 @@ CLAIMS = {
         technique="CrossHair symbolic execution (z3 per path) of the serial and parallel drivers over a contract model of the process pool",
         text="Bounded symbolic check: towers and steps 1..3 (4 thorough), all strategies incl. an invalid one, workers 1..5 or from the configuration, environment "
         "schedules (rotation/reversal of execution and completion order), parent thread setting 1..4, cache and footprint flags: the result is "
-        "{tower: [single(tower, i)]} keyed in configuration order, equals the serial driver, leaves the parent's thread/FFT state untouched; one cache per series exactly when caching applies.",
+        "{tower: [single(tower, i)]} keyed in configuration order (the token carries the tower coordinates the single run sees), equals the serial driver, leaves the parent's thread/FFT state and the caller's towers untouched; one cache per series exactly when caching applies. "
+        "Cache on = cache off is reduced to key injectivity over the requests of a series (z3 over identity-tagged runs of the real solver and _compute_key, as in C15).",
         ref="7/C14", note=CH_NOTE + " Real process pools, pickling and shared cache directories under concurrency are outside the claim."),
     "C15": dict(
         technique="identity-tagged execution of the real solver + real _compute_key over a token-recording hashlib stub, z3 queries over request pairs; CrossHair over put/get on a file-system model",
@@ -125,8 +126,9 @@ CLAIMS = {
         text="For all real forcings (0<z0<zm, |wind|>0, ustar>0, mol of either sign, prsc, tke) and every closure, on each explored grid length z3 decides: z[0]=z0, z[n]=zm, "
         "strict monotonicity, reaching the domain height, wind vector at zm, constant direction, Kz>0 and the similarity formula (independent phi_h), the MOSTM split, the "
         "ustar->z0->ustar round trip; psi(0)=0, phi(0)=1; x psi'(x) = phi_m(x)-1 by running the real psi on dual numbers; agreement with the reference model's copies.",
-        ref="7/C09", note="Trusted: z3; exp/log/sqrt/pow/atan uninterpreted with instantiated laws (a proof holds for the true functions; sat answers are replayed); layer count 2 (3 thorough), "
-        "grids up to n+2 (n+3) nodes, longer ones cut and counted."),
+        ref="7/C09", note="Trusted: z3; exp/log/sqrt/pow/atan uninterpreted with instantiated laws (a proof holds for the true functions; sat answers are replayed); queries go through a portfolio "
+        "(all law instances / lazy instantiation / disjuncts one by one); 2 layers and grids up to 4 nodes for every closure (thorough: CONSTANT closure and the grid jobs with 3-4 layers, up to 7 nodes), longer grids cut and counted; "
+        "stretch and domain_height symbolic for the grid clauses; one (case, path, obligation) triple undecided within the budget is outside the claim and listed in the evidence (0.2 of DESIGN.md)."),
     "C17": dict(
         technique="exact/UF symbolic execution of latlon_to_xy / xy_to_latlon / configuration building (z3 NRA) with a path explorer",
         text="For all real coordinates (|ref_lat|<90) z3 decides both round-trip identities, origin -> (0,0), x east / y north monotone and separable, element-wise array behaviour, "
